@@ -158,6 +158,8 @@ class CallsDriver:
             # the caller's reaction to this result is to tear the connection down, and the transport reports the loss at once
             self.lose_in_callback = None
             self.do_Lose()
+        # what the caller makes of the result is its own business: the Deferred of a call goes on with this value
+        return 'handled by the caller of %d' % c
 
     def _on_eb(self, f, c):
         e = f.value
